@@ -312,6 +312,12 @@ class Kinds:
         if k.tag == 'global':
             return '::' + k.name
         if k.tag == 'attr':
+            # an attribute of a freshly constructed object that was handed in as a keyword argument
+            # (`Tape(.., flags=d).flags`) *is* that argument: the constructor stores, it does not copy
+            if k.base.tag == 'new' and k.attr in (k.base.get('kws') or {}):
+                inner = self.path(k.base.kws[k.attr])
+                if inner is not None and not inner.startswith(('new@', 'copy@')):
+                    return inner
             b = self.path(k.base)
             return None if b is None else f'{b}.{k.attr}'
         if k.tag == 'new':
